@@ -36,18 +36,21 @@ StFailed(st) == (st \div 32) % 4 > 0
 RecOf(e) == [id |-> e.hash, h |-> e.h, prev |-> (IF Has(e, "prev") THEN e.prev ELSE "?"), data |-> StData(e.status),
              valid |-> StValid(e.status), failed |-> StFailed(e.status), file |-> e.file, off |-> e.off]
 
-RecEvents == SelectSeq(Ev, LAMBDA e : e.ev = "idx_rec")
-FilesEv == SelectSeq(Ev, LAMBDA e : e.ev = "files")
+\* a trace file may hold several runs back to back; each starts with its "cmd" line
+SegEnd(i) == LET later == {j \in (i + 1)..N : Ev[j].ev = "cmd"} IN IF later = {} THEN N ELSE MinOf(later) - 1
+Seg(i) == SubSeq(Ev, i, SegEnd(i))
 
 \* the scenario as far as the trace determines it; what is stored at a record's place is assumed to be
 \* that record's block and the `fetched` event is checked against it (C03)
-TraceScenario ==
-  [recs |-> [i \in 1..Len(RecEvents) |-> RecOf(RecEvents[i])],
-   store |-> {[file |-> RecEvents[i].file, off |-> RecEvents[i].off, id |-> RecEvents[i].hash] :
-                 i \in {j \in 1..Len(RecEvents) : StData(RecEvents[j].status)}},
-   files |-> IF Len(FilesEv) > 0 THEN ToSet(FilesEv[1].nums) ELSE {},
-   facts |-> <<>>, genesis |-> "", start |-> Ev[1].start, end |-> Ev[1].end, verify |-> Ev[1].verify, cb |-> Ev[1].cb,
-   limit |-> NONE, kill |-> FALSE]
+TraceScenario(i) ==
+  LET RecEvents == SelectSeq(Seg(i), LAMBDA e : e.ev = "idx_rec")
+      FilesEv == SelectSeq(Seg(i), LAMBDA e : e.ev = "files")
+  IN [recs |-> [k \in 1..Len(RecEvents) |-> RecOf(RecEvents[k])],
+      store |-> {[file |-> RecEvents[k].file, off |-> RecEvents[k].off, id |-> RecEvents[k].hash] :
+                    k \in {j \in 1..Len(RecEvents) : StData(RecEvents[j].status)}},
+      files |-> IF Len(FilesEv) > 0 THEN ToSet(FilesEv[1].nums) ELSE {},
+      facts |-> <<>>, genesis |-> "", start |-> Ev[i].start, end |-> Ev[i].end, verify |-> Ev[i].verify, cb |-> Ev[i].cb,
+      limit |-> NONE, kill |-> FALSE]
 
 Is(name) == l <= N /\ Ev[l].ev = name /\ l' = l + 1
 Silent == l' = l /\ UNCHANGED aux
@@ -55,7 +58,8 @@ E == Ev[l]
 
 TInit == Init /\ l = 1 /\ aux = [created |-> {}, keeps |-> <<>>, prev |-> "", renamed |-> {}]
 
-TBegin == Is("cmd") /\ l = 1 /\ Begin(TraceScenario) /\ UNCHANGED aux
+AuxInit == [created |-> {}, keeps |-> <<>>, prev |-> "", renamed |-> {}]
+TBegin == Is("cmd") /\ BeginFresh(TraceScenario(l)) /\ aux' = AuxInit
 
 \* ---- construction of the callback ------------------------------------------------------------
 TmpBase(name) == SubSeq(name, 1, Len(name) - 8)            \* strip ".csv.tmp"
@@ -141,5 +145,8 @@ TraceAccepted == IF TLCGet(1) = N + 1 THEN TRUE
 ASSUME TLCSet(1, 0)
 
 \* invariants evaluated on the trace, besides the base specification's own
+\* RightBlock for the block delivered last (the earlier ones were checked in the earlier states)
+RightBlockT == Len(delivered) > 0 =>
+                 LET d == delivered[Len(delivered)] IN d[1] \in DOMAIN idx /\ d[2] = idx[d[1]].id
 LinkedT == pc = "deliver" /\ Len(delivered) > 0 /\ aux.prev # "" => aux.prev = delivered[Len(delivered)][2]
 =============================================================================
